@@ -2492,7 +2492,7 @@ SPECS["O20.6"] = [recovery_scans_folder, recover_levels_scans]
 
 def is_dead_exact(fns):
     fn = mir.find(fns, r"src/vlog/blob_file/mod\.rs[^>]*>::is_dead\(")
-    a = Automaton(fn, "O9.6 BlobFile::is_dead is the exact comparison fragmentation.bytes == meta.total_uncompressed_bytes (no rounding)")
+    a = Automaton(fn, "O9.6 BlobFile::is_dead: stale bytes == total bytes and stale blobs == blob count, exactly (no rounding, no 0 == 0 for empty values)")
     fnames = struct_fields(SRC_ROOT, "src/blob_tree/gc.rs", "FragmentationEntry")
     mnames = struct_fields(SRC_ROOT, "src/vlog/blob_file/meta.rs", "Metadata")
     ok, why = False, "shape not recognised"
@@ -2509,32 +2509,47 @@ def is_dead_exact(fns):
                 floats.append(b.callee)
     eqs = []
     for f in scope:
-        for b in live_blocks(f):
-            for st in b.stmts:
-                m = re.match(r"^_0 = Eq\(copy (_\d+), copy (_\d+)\)$", st)
-                if m:
-                    defs = {}
-                    for bb in live_blocks(f):
-                        for s2 in bb.stmts:
-                            mm = re.match(r"^(_\d+) = copy (.*)$", s2)
-                            if mm:
-                                defs[mm.group(1)] = mm.group(2)
-                    d1, d2 = defs.get(m.group(1), ""), defs.get(m.group(2), "")
-                    f1 = re.search(r"\(\(\*_\d+\)\.(\d+): u64\)$", d1)
-                    f2 = re.search(r"Metadata\)\.(\d+): u64\)$", d2)
-                    if not (f1 and f2):
-                        f1, f2 = re.search(r"\(\(\*_\d+\)\.(\d+): u64\)$", d2), re.search(r"Metadata\)\.(\d+): u64\)$", d1)
-                    if f1 and f2:
-                        eqs.append((fnames[int(f1.group(1))], mnames[int(f2.group(1))]))
+        defs = {}
+        for bb in live_blocks(f):
+            for s2 in bb.stmts:
+                mm = re.match(r"^(_\d+) = (?:copy|move) (.*?)(?: as u64 \(IntToInt\))?$", s2)
+                if mm:
+                    defs[mm.group(1)] = mm.group(2)
+
+        def origin(x):
+            for _ in range(4):
+                d = defs.get(x)
+                if d is None:
+                    return ""
+                if re.fullmatch(r"_\d+", d):
+                    x = d
+                    continue
+                return d
+            return ""
+        for bb in live_blocks(f):
+            for st in bb.stmts:
+                m = re.match(r"^_\d+ = Eq\((?:copy|move) (_\d+), (?:copy|move) (_\d+)\)$", st)
+                if not m:
+                    continue
+                d1, d2 = origin(m.group(1)), origin(m.group(2))
+                f1 = re.search(r"^\(\(\*_\d+\)\.(\d+): (u64|usize)\)$", d1)
+                f2 = re.search(r"Metadata\)\.(\d+): u64\)$", d2)
+                if not (f1 and f2):
+                    f1, f2 = re.search(r"^\(\(\*_\d+\)\.(\d+): (u64|usize)\)$", d2), re.search(r"Metadata\)\.(\d+): u64\)$", d1)
+                if f1 and f2:
+                    eqs.append((fnames[int(f1.group(1))], mnames[int(f2.group(1))]))
+    need = {("bytes", "total_uncompressed_bytes"), ("len", "item_count")}
     if floats:
         ok, why = False, "deadness goes through floating point / a ratio: %s" % floats[0][:80]
-    elif eqs == [("bytes", "total_uncompressed_bytes")]:
-        ok, why = True, "Eq(entry.bytes, meta.total_uncompressed_bytes)"
+    elif set(eqs) == need:
+        ok, why = True, "entry.bytes == meta.total_uncompressed_bytes && entry.len == meta.item_count"
     elif not eqs:
         raise MirError("is_dead: neither an integer equality nor a float computation found")
+    elif set(eqs) == {("bytes", "total_uncompressed_bytes")}:
+        ok, why = False, "deadness is decided by bytes alone: with empty values (separation threshold 0) 0 stale bytes == 0 total bytes while live blobs remain"
     else:
-        ok, why = False, "compares %s" % eqs
-    a.glue = [("is_dead(frag) = frag[id].bytes == meta.total_uncompressed_bytes, decided on u64 (%s)" % why, "proved" if ok else "refuted", 0.0)]
+        ok, why = False, "compares %s" % sorted(set(eqs))
+    a.glue = [("is_dead(frag) = exact u64 equalities of stale bytes and stale blob count with the file's totals (%s)" % why, "proved" if ok else "refuted", 0.0)]
     a.var("x")
     a.event("ret:deadness not decided by exact equality", [] if ok else [b.idx for b in live_blocks(fn) if b.kind == "return"])
     a.require("ret:deadness not decided by exact equality", "false", "a blob file can be declared dead (dropped from the version and deleted) while a few of its bytes are still referenced: %s" % why)
